@@ -2700,11 +2700,11 @@ class Parameters:
         return _ParametersRestorer(parameters=self_, restore=restore, refs=refs)
 
     def _update(self_, arg=Undefined, /, **kwargs):
-        BATCH_WATCH = self_._BATCH_WATCH
-        self_._BATCH_WATCH = True
         self_or_cls = self_.self_or_cls
         if arg is not Undefined:
             kwargs = dict(arg, **kwargs)
+        BATCH_WATCH = self_._BATCH_WATCH
+        self_._BATCH_WATCH = True
 
         trigger_params = [
             k for k in kwargs
